@@ -55,3 +55,16 @@ def realize_bool(x) -> bool:
         return bool(realize(x))
     except Exception:
         return bool(x)
+
+
+def pick(x, lo, hi):
+    """Enumerate a symbolic int in [lo, hi) by explicit branching: exactly one path per value (CrossHair's
+    `realize` re-visits values several times).  Concrete ints pass through."""
+    with concrete():
+        is_concrete = type(x) is int        # under tracing CrossHair makes type(symbolic int) look like int
+    if is_concrete:
+        return x
+    for v in range(lo, hi - 1):
+        if x == v:
+            return v
+    return hi - 1
